@@ -7,6 +7,50 @@ import random
 import sys
 from pathlib import Path
 
+import time as _time
+
+# ---- elapsed real time, virtualised.  The library (and asyncio's timers) read time.monotonic / perf_counter through the
+# patched names and see idle periods the harness declares with idle(); the harness's own watchdogs read REAL_MONOTONIC.
+REAL_MONOTONIC = _time.monotonic
+_real = {"monotonic": _time.monotonic, "monotonic_ns": _time.monotonic_ns, "perf_counter": _time.perf_counter, "perf_counter_ns": _time.perf_counter_ns}
+_idle = {"s": 0.0, "installed": False, "jumps": 0}
+
+
+def install_virtual_monotonic() -> None:
+    """Worker processes only, before asyncio or the library look at a clock."""
+    if _idle["installed"]:
+        return
+    _idle["installed"] = True
+    _time.monotonic = lambda: _real["monotonic"]() + _idle["s"]
+    _time.monotonic_ns = lambda: _real["monotonic_ns"]() + int(_idle["s"] * 1e9)
+    _time.perf_counter = lambda: _real["perf_counter"]() + _idle["s"]
+    _time.perf_counter_ns = lambda: _real["perf_counter_ns"]() + int(_idle["s"] * 1e9)
+
+
+def idle(seconds: float) -> None:
+    """Real time passes (monotonic clocks only move forward): nothing happens for `seconds`."""
+    if _idle["installed"] and seconds > 0:
+        _idle["s"] += float(seconds)
+        _idle["jumps"] += 1
+
+
+def idle_jumps() -> int:
+    return _idle["jumps"]
+
+
+async def wait_real(event, timeout_s: float) -> bool:
+    """Wait for an asyncio.Event under a limit on the real clock (immune to idle() jumps)."""
+    import asyncio
+
+    t0, spin = REAL_MONOTONIC(), 0
+    while not event.is_set():
+        spin += 1
+        await asyncio.sleep(0 if spin < 200 else 0.002)
+        if REAL_MONOTONIC() - t0 > timeout_s:
+            return event.is_set()
+    return True
+
+
 VERIF = Path(__file__).resolve().parent.parent
 REPO = Path(os.environ.get("VERIF_REPO", "/repo")).resolve()
 SRC = REPO / "src"
